@@ -267,7 +267,7 @@ def attach_glob(cvh, cases, tag):
     kinds = {"plan": "line", "head": "line", "plan1": "line1", "xall": "tokens", "xglob": "tokens"}
     q = []
     for c in cases:
-        if c.stream in kinds and "2a" in c.fields[1]:
+        if c.stream in kinds:
             qc = Case("globneeds", [c.fields[0], c.fields[1], kinds[c.stream]])
             qc.id = "g" + c.id
             q.append((c, qc))
